@@ -222,6 +222,115 @@ func runTwoClause(r *common.Run, st *stats) {
 	r.Set("two_clause_graphs", len(graphs))
 }
 
+// ---- two clauses with extraction aliases shared across clauses ---------------------------
+
+// aliasClauses: a small clause vocabulary for the alias exploration.
+func aliasClauses() []bqlm.Clause {
+	ss := []bqlm.Term{{Kind: bqlm.Const, N: bqlm.NA}, {Kind: bqlm.Bind}}
+	ps := []bqlm.Term{{Kind: bqlm.Const, P: bqlm.PImm}, {Kind: bqlm.AnchorBind, ID: "p"}, {Kind: bqlm.Bind}}
+	os := []bqlm.Term{{Kind: bqlm.Const, N: bqlm.NB}, {Kind: bqlm.Bind}}
+	var out []bqlm.Clause
+	for _, s := range ss {
+		for _, p := range ps {
+			for _, o := range os {
+				out = append(out, bqlm.Clause{S: s, P: p, O: o})
+			}
+		}
+	}
+	return out
+}
+
+func aliasGraphs() []map[string][]*triple.Triple {
+	T := model.T
+	a, b, c := bqlm.NA, bqlm.NB, bqlm.NC
+	p, p1, p2 := bqlm.PImm, bqlm.PT1, bqlm.PT2
+	gs := [][]*triple.Triple{
+		{T(a, p, model.ON(b)), T(b, p, model.ON(a)), T(a, p, model.ON(a))},                                                // symmetric pair + loop: ids agree and disagree
+		{T(a, p, model.ON(b)), T(a, p1, model.ON(b)), T(b, p1, model.ON(c)), T(c, p2, model.ON(b)), T(b, p, model.ON(b))}, // anchors shared / not shared
+		{T(a, p, model.ON(b)), T(c, p, model.ON(b)), T(a, p1, model.OP(p1)), T(a, p, model.OL(bqlm.LInt))},                // same object, different subjects; non-node objects
+	}
+	var out []map[string][]*triple.Triple
+	for _, g := range gs {
+		out = append(out, map[string][]*triple.Triple{"?g": g})
+	}
+	return out
+}
+
+// aliasShapes enumerates, for a pair of named clauses, every way of putting one
+// modifier on the second clause (and optionally one on the first) whose alias
+// NAME is shared with a binding or alias of the other clause.
+func aliasShapes(named []bqlm.Clause, all bool) [][]bqlm.Clause {
+	var out [][]bqlm.Clause
+	firsts := []bqlm.Clause{named[0]}
+	for mi, m := range bqlm.ModifiersFor(named[0]) {
+		if !all && mi%3 != 1 {
+			continue // quick: every third modifier on the first clause (S TYPE, P ID, O ...); thorough: all
+		}
+		firsts = append(firsts, bqlm.WithModifier(named[0], m, "?m0"))
+	}
+	for fi, f := range firsts {
+		// everything the first clause binds, its alias included - but not a name the
+		// second clause itself uses: naming an extraction like a binding of its own
+		// clause ("?gc ID ?gc") is a form the repository's compliance stories use
+		// with the extraction winning, so it is left out (see DESIGN.md, C03)
+		own := map[string]bool{}
+		for _, b := range named[1].Bindings() {
+			own[b] = true
+		}
+		var names []string
+		for _, b := range f.Bindings() {
+			if !own[b] {
+				names = append(names, b)
+			}
+		}
+		if fi == 0 {
+			names = append(names, "?m1") // a fresh alias as control
+		}
+		for _, m := range bqlm.ModifiersFor(named[1]) {
+			seen := map[string]bool{}
+			for _, n := range names {
+				if seen[n] {
+					continue
+				}
+				seen[n] = true
+				out = append(out, []bqlm.Clause{f, bqlm.WithModifier(named[1], m, n)})
+			}
+		}
+	}
+	return out
+}
+
+func runTwoClauseAliases(r *common.Run, st *stats) {
+	base := aliasClauses()
+	graphs := aliasGraphs()
+	stores := make([]storage.Store, len(graphs))
+	for i, g := range graphs {
+		stores[i] = bqlm.NewStore(g)
+	}
+	var shapes int64
+	common.ParallelFor(len(base), func(i int) {
+		for j := range base {
+			if r.OutOfTime() {
+				return
+			}
+			for k, named := range bqlm.Namings([]bqlm.Clause{base[i], base[j]}) {
+				for ai, cs := range aliasShapes(named, r.Thorough()) {
+					q := &bqlm.Query{From: []string{"?g"}, Where: cs, Proj: bqlm.SelectAll(cs)}
+					atomic.AddInt64(&shapes, 1)
+					for gi := range graphs {
+						if !r.Thorough() && gi == 2 {
+							continue
+						}
+						v := bqlm.Compare(q, stores[gi], graphs[gi], 0)
+						report(r, st, "alias", fmt.Sprintf("alias:%d:%d:%d:%d:%d", i, j, k, ai, gi), q, graphs[gi], v)
+					}
+				}
+			}
+		}
+	})
+	r.Set("two_clause_shared_alias_shapes", int(shapes))
+}
+
 // ---- replay -----------------------------------------------------------------------
 
 func replay(raw json.RawMessage) (bool, string) {
@@ -244,6 +353,21 @@ func replay(raw json.RawMessage) (bool, string) {
 		data := map[string][]*triple.Triple{"?g": bqlm.Subset(bqlm.Universe8(), n[1])}
 		v := bqlm.Compare(q, bqlm.NewStore(data), data, 0)
 		return v.Ok, v.Detail
+	case "alias":
+		base := aliasClauses()
+		named := bqlm.Namings([]bqlm.Clause{base[n[0]], base[n[1]]})[n[2]]
+		var n3, n4 int
+		fmt.Sscan(parts[4], &n3)
+		fmt.Sscan(parts[5], &n4)
+		shapes := aliasShapes(named, true)
+		if n3 >= len(shapes) || (&bqlm.Query{From: []string{"?g"}, Where: shapes[n3], Proj: bqlm.SelectAll(shapes[n3])}).Render() != k.Text {
+			shapes = aliasShapes(named, false)
+		}
+		cs := shapes[n3]
+		q := &bqlm.Query{From: []string{"?g"}, Where: cs, Proj: bqlm.SelectAll(cs)}
+		g := aliasGraphs()[n4]
+		v := bqlm.Compare(q, bqlm.NewStore(g), g, 0)
+		return v.Ok, v.Detail
 	case "two":
 		base := bqlm.BaseClauses()
 		named := bqlm.Namings([]bqlm.Clause{base[n[0]], base[n[1]]})[n[2]]
@@ -260,6 +384,7 @@ func main() {
 	r.Replayer("one", replay)
 	r.Replayer("two", replay)
 	r.Replayer("multi", replay)
+	r.Replayer("alias", replay)
 	r.MaybeReplay()
 	// validate the oracle itself against the maintainers' compliance stories
 	nOK, nSkip, verr := bqlm.ValidateAgainstStories("/repo/examples/compliance")
@@ -271,6 +396,7 @@ func main() {
 	st := &stats{}
 	runOneClause(r, st)
 	runTwoClause(r, st)
+	runTwoClauseAliases(r, st)
 	r.Set("evaluations", int(st.evals))
 	r.Set("accepted_by_parser", int(st.accepted))
 	r.Set("distinct_nontrivial", int(st.nontrivial))
